@@ -172,6 +172,10 @@ func runTree(c treeCase) (r treeResult) {
 			if n.Bare {
 				break
 			}
+			if a == "N" {
+				cmd.Int(cli.IntArg{Name: "N", Value: -1}) // the Int argument of the specification
+				continue
+			}
 			l := new([]string)
 			logs[path]["A:"+a] = l
 			cmd.Var(cli.VarArg{Name: a, Value: &rec{log: l}})
